@@ -361,6 +361,14 @@ func c06Run(c *hx.Ctx, tier, unit string) {
 				}
 			}
 		}
+		// certificates of every kind (signed with SHA-384/512 or PSS, issued by RSA / ECDSA / Ed25519
+		// CAs): none of this may change the SignedData, which is SHA-256 with the signer's RSA key
+		for _, vc := range keys.Variety(1) {
+			for _, pi := range []int{0, 3} {
+				c06CheckCert(c, "db", gA, 0x27, pls[pi], 1, vc, t0, nil)
+				c06CheckCert(c, "A", gA, 0x67, pls[pi], 1, vc, t0, nil)
+			}
+		}
 	case unit == "stepping-clock":
 		// a clock that moves between two readings inside one call (slow signer, second boundary)
 		c06Stepping = true
